@@ -560,6 +560,9 @@ pub struct PropertyColumn<Id: EntityId = NodeId> {
     zone_map: ZoneMapEntry,
     /// Whether zone map needs rebuild (after removes).
     zone_map_dirty: bool,
+    /// Whether the column holds values that do not compare with its min/max
+    /// (mixed types, NaN). Such values are outside what min/max describe.
+    zone_map_mixed: bool,
     /// Compression mode for this column.
     compression_mode: CompressionMode,
     /// Compressed data (when compression is enabled and triggered).
@@ -576,6 +579,7 @@ impl<Id: EntityId> PropertyColumn<Id> {
             values: FxHashMap::default(),
             zone_map: ZoneMapEntry::new(),
             zone_map_dirty: false,
+            zone_map_mixed: false,
             compression_mode: CompressionMode::None,
             compressed: None,
             compressed_count: 0,
@@ -589,6 +593,7 @@ impl<Id: EntityId> PropertyColumn<Id> {
             values: FxHashMap::default(),
             zone_map: ZoneMapEntry::new(),
             zone_map_dirty: false,
+            zone_map_mixed: false,
             compression_mode: mode,
             compressed: None,
             compressed_count: 0,
@@ -642,11 +647,11 @@ impl<Id: EntityId> PropertyColumn<Id> {
         // Update min
         match &self.zone_map.min {
             None => self.zone_map.min = Some(value.clone()),
-            Some(current) => {
-                if compare_values(value, current) == Some(Ordering::Less) {
-                    self.zone_map.min = Some(value.clone());
-                }
-            }
+            Some(current) => match compare_values(value, current) {
+                Some(Ordering::Less) => self.zone_map.min = Some(value.clone()),
+                Some(_) => {}
+                None => self.zone_map_mixed = true,
+            },
         }
 
         // Update max
@@ -1007,7 +1012,11 @@ impl<Id: EntityId> PropertyColumn<Id> {
             CompareOp::Eq => self.zone_map.might_contain_equal(value),
             CompareOp::Ne => {
                 // Can only skip if all values are equal to the value
-                // (which means min == max == value)
+                // (which means min == max == value), and min/max only speak
+                // for the values that compare with them
+                if self.zone_map_mixed {
+                    return true;
+                }
                 match (&self.zone_map.min, &self.zone_map.max) {
                     (Some(min), Some(max)) => {
                         !(compare_values(min, value) == Some(Ordering::Equal)
@@ -1026,6 +1035,7 @@ impl<Id: EntityId> PropertyColumn<Id> {
     /// Rebuilds zone map from current values.
     pub fn rebuild_zone_map(&mut self) {
         let mut zone_map = ZoneMapEntry::new();
+        let mut mixed = false;
 
         for value in self.values.values() {
             zone_map.row_count += 1;
@@ -1038,11 +1048,11 @@ impl<Id: EntityId> PropertyColumn<Id> {
             // Update min
             match &zone_map.min {
                 None => zone_map.min = Some(value.clone()),
-                Some(current) => {
-                    if compare_values(value, current) == Some(Ordering::Less) {
-                        zone_map.min = Some(value.clone());
-                    }
-                }
+                Some(current) => match compare_values(value, current) {
+                    Some(Ordering::Less) => zone_map.min = Some(value.clone()),
+                    Some(_) => {}
+                    None => mixed = true,
+                },
             }
 
             // Update max
@@ -1058,6 +1068,7 @@ impl<Id: EntityId> PropertyColumn<Id> {
 
         self.zone_map = zone_map;
         self.zone_map_dirty = false;
+        self.zone_map_mixed = mixed;
     }
 }
 
